@@ -537,6 +537,9 @@ contract(
         "shape": "all(" + _SHAPE.format(m="result") + " for a in result)",
     },
     canaries={"identity": "all(result[a] == a for a in result)", "nonempty": "len(result) > 0"},
+    # (the engine's optional "every key sits at some position of keys()" fact is not needed here and sends z3's sequence
+    # solver into a loop on `name in order` goals)
+    dict_key_positions=False,
     locals={"seen": Dict(STR, INT), "rename_map": Dict(STR, STR), "valid_name": STR, "prod_name": STR},
     loops={
         "for name in self.otf.getGlyphOrder()": Loop(
@@ -701,15 +704,17 @@ def _pplib_get(ex, st, self, args, kwargs, node):
     from pyvc import ops
 
     k = args[0]
+    if is_const(k) and k.py == "public.postscriptNames" and len(args) == 1:
+        return ex.read_field(st, self, "psnames")
     if not is_const(k) or k.py not in _LIBKEYS:
-        raise Unsupported(f"PPLib.get({k}): only the three production-name switches are modelled", node)
+        raise Unsupported(f"PPLib.get({k}): only the three production-name switches and public.postscriptNames are modelled", node)
     v = ex.read_field(st, self, _LIBKEYS[k.py])
     if len(args) > 1:
         return ops.ite(v.ty.sort().is_some(v.term), Val(BOOL, v.ty.sort().val(v.term)), args[1])
     return v
 
 
-cls("PPLib", fields={"keep": Opt(BOOL), "use": Opt(BOOL), "dont": Opt(BOOL)}, methods={"get": _pplib_get},
+cls("PPLib", fields={"keep": Opt(BOOL), "use": Opt(BOOL), "dont": Opt(BOOL), "psnames": Opt(Dict(STR, STR))}, methods={"get": _pplib_get},
     notes="ufo.lib restricted to the three switches keepGlyphNames / useProductionNames / Glyphs' \"Don't use Production Names\" (optional plist booleans)")
 cls("PPUfo", fields={"lib": Ref("PPLib")}, notes="source UFO: lib")
 CLASSES["PPFont"].views["glyphOrder"] = lambda o: list(o.getGlyphOrder())
@@ -986,14 +991,21 @@ CONTRACTS[f"{PP}._rename_glyphs_from_ufo"].runtime = Runtime(_rgu_cases, _rgu_bu
 # =====================================================================================================
 # process_glyph_names: decision table + typestate (reload BEFORE rename; reload AFTER dropping names)
 
-_LIBGET = "self.ufo.lib.get({k!r}{d})"
-# keepGlyphNames / useProductionNames as the statement defines them (argument wins; lib switches otherwise)
-_K = "(True if useProductionNames is not None else " + _LIBGET.format(k=_K_KEEP, d=", True") + ")"
-_U = (
-    "(useProductionNames if useProductionNames is not None else "
-    + _LIBGET.format(k=_K_USE, d=", (not " + _LIBGET.format(k=_K_DONT, d="") + ") and self._postscriptNames is not None")
-    + ")"
-)
+
+
+def keep_and_use(ufo="self.ufo", arg="useProductionNames", ps="self._postscriptNames"):
+    """clause texts of keepGlyphNames / useProductionNames as the statement defines them (argument wins; lib switches
+    otherwise), over the given expressions for the source font, the argument and the public.postscriptNames mapping"""
+
+    def get(k, d=""):
+        return f"{ufo}.lib.get({k!r}{d})"
+
+    K = f"(True if {arg} is not None else " + get(_K_KEEP, ", True") + ")"
+    U = f"({arg} if {arg} is not None else " + get(_K_USE, ", (not " + get(_K_DONT) + f") and {ps} is not None") + ")"
+    return K, U
+
+
+_K, _U = keep_and_use()
 _HAS_CFF0 = "old('CFF ' in self.otf)"
 _HAS_POST0 = "old('post' in self.otf)"
 
@@ -1021,7 +1033,7 @@ contract(
         # --- names cannot be dropped from CFF 1.0: nothing happens
         "drop-unsupported-cff": f"implies(not {_K} and {_HAS_CFF0}, self.otf_id == old(self.otf_id) and self.order == old(self.order))",
         "same-glyph-count-always": "len(self.order) == len(old(self.order))",
-        "same-tables": f"iff('CFF ' in self.otf, {_HAS_CFF0}) and iff('post' in self.otf, {_HAS_POST0})",
+        "same-tables": f"iff('CFF ' in self.otf, {_HAS_CFF0}) and iff('post' in self.otf, {_HAS_POST0}) and iff('CFF2' in self.otf, old('CFF2' in self.otf))",
     },
     canaries={"never-reloads": "self.otf_id == old(self.otf_id)", "always-renames": "self.order != old(self.order)"},
 )
